@@ -132,6 +132,12 @@ func pathWithin(path, dir string) bool {
 		return true
 	}
 
+	if dir == "." {
+		// The workspace root has no "./" prefix to match on: it contains every
+		// relative path that does not leave it.
+		return !filepath.IsAbs(path) && !pathTriesToEscape(path)
+	}
+
 	dirWithSeparator := dir + string(filepath.Separator)
 	return strings.HasPrefix(path, dirWithSeparator)
 }
